@@ -11,7 +11,7 @@
                                     otherwise the operator applied to x and y.
    In Section [AnyOperators] the operator semantics [binop] is a variable: the theorems hold whatever the
    Python operators do on ints, floats or anything else.  [f] is the recursion fuel of the model. *)
-From Isobar Require Import Base.Prelude Pat.Val Pat.Syntax Pat.Step Pat.StepProofs Pat.Dunder Pat.OpProofs.
+From Isobar Require Import Base.Prelude Pat.Val Pat.Syntax Pat.Step Pat.StepProofs Pat.Dunder Pat.OpProofs Pat.Ieee Pat.IeeeProofs.
 From Coq Require Import String QArith.
 Open Scope Z_scope.
 
@@ -179,3 +179,68 @@ Example C08_nesting_nonvacuous :
                                              (AP (PSequence (AL [AV (VInt 2); AV VNone; AV (VInt 5)]) (AV (VInt 1)) 1 0))))) in
   tree_ok Val.binop 100 26 3 t /\ tree_vals Val.binop 3 t = Some [VInt 6; VNone; VInt 5].
 Proof. split; [|vm_compute; reflexivity]. cbn [tree_ok]. repeat split; vm_compute; reflexivity. Qed.
+
+(* ---- rounding --------------------------------------------------------------------------------------------
+   The correspondence also runs with the operator semantics Pat/Ieee.v [binop_ieee]: + - * / on floats are the
+   exact rational result rounded to binary64 (ties to even), the other operators as in Pat/Val.v.  All theorems of
+   Section AnyOperators hold for it (they hold for any semantics); the ones below are what is specific to it. *)
+
+(* the nesting law, instantiated: an expression tree over float streams denotes its LEVEL-BY-LEVEL rounded
+   evaluation *)
+Theorem C08_nesting_rounding : forall LMAX t f n vs,
+  tree_ok binop_ieee LMAX f n t -> tree_vals binop_ieee n t = Some vs ->
+  vals binop_ieee LMAX f n (tree_arg t) = Some (vs, tree_arg' t).
+Proof. intro LMAX. exact (C08_nesting binop_ieee LMAX). Qed.
+Print Assumptions C08_nesting_rounding.
+
+(* ... and nothing else: rounded addition is not associative (so (p + c1) + c2 is not p + (c1 + c2)), a large
+   term cancels before or after a small one is absorbed, rounded multiplication does not distribute *)
+Theorem C08_rounding_not_associative :
+  exists x c1 c2 l r, obind (binop_ieee OAdd x c1) (fun s => binop_ieee OAdd s c2) = Yield l /\
+                      obind (binop_ieee OAdd c1 c2) (fun s => binop_ieee OAdd x s) = Yield r /\
+                      val_eqb l r = false.
+Proof. exact ieee_add_not_associative. Qed.
+Print Assumptions C08_rounding_not_associative.
+
+Theorem C08_rounding_not_distributive :
+  exists x y c l r, obind (binop_ieee OAdd x y) (fun s => binop_ieee OMul s c) = Yield l /\
+                    obind (binop_ieee OMul x c) (fun p => obind (binop_ieee OMul y c) (fun q => binop_ieee OAdd p q)) = Yield r /\
+                    val_eqb l r = false.
+Proof. exact ieee_mul_not_distributive. Qed.
+Print Assumptions C08_rounding_not_distributive.
+
+(* the rounding semantics meets the side condition of the swapped reflected forms: rounded + and * commute *)
+Theorem C08_rounding_operators_reflect : forall o c y,
+  swapped_when_reflected o = true -> scalar_val c = true -> scalar_val y = true ->
+  elem binop_ieee (mirror o) y c = elem binop_ieee o c y.
+Proof. exact elem_reflected_ieee. Qed.
+Print Assumptions C08_rounding_operators_reflect.
+
+(* it extends Pat/Val.v conservatively: every m / 2^k with |m| < 2^53 (in particular every float Val.binop can
+   produce) is a fixed point of the rounding, and on ints nothing changed *)
+Theorem C08_rounding_exact_on_small_dyadics : forall m k,
+  Z.abs m < 2 ^ 53 -> 0 <= k <= 1074 ->
+  round64 (m # Z.to_pos (2 ^ k)) = Yield (Qred (m # Z.to_pos (2 ^ k))).
+Proof. exact round64_fixes_small_dyadic. Qed.
+Print Assumptions C08_rounding_exact_on_small_dyadics.
+
+Theorem C08_rounding_exact_on_val_floats : forall q, dyadic_ok q = true -> round64 (Qred q) = Yield (Qred q).
+Proof. exact round64_fixes_val_floats. Qed.
+Print Assumptions C08_rounding_exact_on_val_floats.
+
+Theorem C08_rounding_ints_unchanged : forall o a b za zb,
+  int_of a = Some za -> int_of b = Some zb -> o <> ODiv -> binop_ieee o a b = Val.binop o a b.
+Proof. exact binop_ieee_ints. Qed.
+Print Assumptions C08_rounding_ints_unchanged.
+
+Example C08_nesting_rounding_nonvacuous :
+  (* (p + 0.1) + 0.2 on p = 2.5, 1: level by level 2.8000000000000003, whereas 2.5 + (0.1 + 0.2) = 2.8 *)
+  let x := (mkf 5 (-1)) in
+  let p := AP (PSequence (AL [AV x; AV (VInt 1)]) (AV (VInt 1)) 0 0) in
+  let p' := AP (PSequence (AL [AV x; AV (VInt 1)]) (AV (VInt 1)) 1 0) in
+  let t := TBin OAdd (TBin OAdd (TLeaf p [x; VInt 1] p') (TLeaf (AV f01) [f01; f01] (AV f01)))
+                     (TLeaf (AV f02) [f02; f02] (AV f02)) in
+  tree_ok binop_ieee 100 26 2 t /\
+  tree_vals binop_ieee 2 t = Some [(mkf 6305039478318695 (-51)); (mkf 5854679515581645 (-52))] /\
+  obind (binop_ieee OAdd f01 f02) (fun s => binop_ieee OAdd x s) = Yield (mkf 3152519739159347 (-50)).
+Proof. split; [|split; vm_compute; reflexivity]. cbn [tree_ok]. repeat split; vm_compute; reflexivity. Qed.
